@@ -369,6 +369,57 @@ def part_emitters(ctx, eng):
         eng_.write_ref(st_, args[0], Seq(v.items + (fmtmodel.deref(eng_, st_, args[1]),)))
         return UNIT
     eng.stub(r'String::push_str$', push_str, 'String::push_str (atom list)')
+
+    from mirsym.engine import StrSort
+    str_is_empty = z3.Function('str_is_empty', StrSort, z3.BoolSort())
+
+    def flat_atoms(eng_, st_, v):
+        """a text held as an atom list (line texts, characters, nested lists) -> flat list of atoms"""
+        v = fmtmodel.deref(eng_, st_, v)
+        if isinstance(v, Seq):
+            out = []
+            for x in v.items:
+                out.extend(flat_atoms(eng_, st_, x))
+            return out
+        if isinstance(v, StrVal):
+            if v.s is not None:
+                return [('chr', ord(ch)) for ch in v.s]
+            return [('txt', v)]
+        if isinstance(v, BV) and v.concrete() is not None:
+            return [('chr', v.concrete())]
+        raise Unsupported('text atom %r' % (v,))
+
+    def normal_atoms(eng_, st_, v):
+        """... with the line texts dropped that the path has established to be empty"""
+        out = []
+        for a_ in flat_atoms(eng_, st_, v):
+            if a_[0] == 'txt' and not eng_.feasible(st_, z3.Not(str_is_empty(str_expr(a_[1])))):
+                continue
+            out.append(a_)
+        return out
+
+    def join_stub(eng_, st_, args, ci):
+        xs = fmtmodel.deref(eng_, st_, args[0])
+        sep = fmtmodel.deref(eng_, st_, args[1])
+        if not isinstance(xs, Seq):
+            raise Unsupported('join over %r' % (xs,))
+        out = []
+        for i, x in enumerate(xs.items):
+            if i:
+                out.append(sep)
+            out.append(fmtmodel.deref(eng_, st_, x))
+        return Seq(out)
+    eng.stub(r'<impl \[(std::string::)?String\]>::join::<&str>$|<impl \[&str\]>::join::<&str>$', join_stub, '[String]::join(sep) (atom list)')
+
+    def is_empty_stub(eng_, st_, args, ci):
+        v = fmtmodel.deref(eng_, st_, args[0])
+        if not isinstance(v, Seq):
+            return NotImplemented
+        at = flat_atoms(eng_, st_, v)
+        if any(a_[0] == 'chr' for a_ in at):
+            return z3.BoolVal(False)
+        return z3.And([str_is_empty(str_expr(a_[1])) for a_ in at]) if at else z3.BoolVal(True)
+    eng.stub(r'(^|::)String::is_empty$|<impl str>::is_empty$', is_empty_stub, 'String::is_empty of an atom list = every line text in it is empty (uninterpreted predicate per text)')
     # ---- checkstyle: line= numbers
     ocf = eng.find('output_checkstyle_file', free=True)
     cs_ok = []
@@ -454,7 +505,39 @@ def part_emitters(ctx, eng):
                 # atoms alternate: text, '\n'
                 conds = []
                 n_k = z3.Sum([z3.If(k == KIND, 1, 0) for k in kinds]) if kinds else z3.IntVal(0)
-                if len(items) % 2 != 0:
+                regular = len(items) % 2 == 0 and all(isinstance(items[2 * g + 1], BV) and items[2 * g + 1].concrete() == 10 and isinstance(items[2 * g], StrVal) for g in range(len(items) // 2))
+                if not regular:
+                    # built some other way (join, nested pieces): compare the atom lists, line texts that the path knows to be empty dropped.  Two lists
+                    # that differ denote different texts for some line contents (every other line text can be chosen non-empty and distinct).
+                    got = normal_atoms(eng, o.state, txt)
+                    per = []
+                    live = [(o.state.fork(), [])]
+                    for j in range(L):
+                        nxt = []
+                        for (s1, acc) in live:
+                            p_ = kinds[j] == KIND
+                            t_ok, f_ok = eng.feasible(s1, p_), eng.feasible(s1, z3.Not(p_))
+                            if t_ok and f_ok:
+                                s2 = s1.fork()
+                                s2.assume(z3.Not(p_))
+                                s1.assume(p_)
+                                nxt.append((s1, acc + [j]))
+                                nxt.append((s2, acc))
+                            elif t_ok:
+                                nxt.append((s1, acc + [j]))
+                            else:
+                                nxt.append((s1, acc))
+                        live = nxt
+                    for (s1, js) in live:
+                        want = []
+                        for j in js:
+                            if eng.feasible(s1, z3.Not(str_is_empty(texts[j].e))):
+                                want.append(('txt', texts[j]))
+                            want.append(('chr', 10))
+                        same = len(got) == len(want) and all(g[0] == w_[0] and (g[1] == w_[1] if g[0] == 'chr' else str_expr(g[1]).eq(w_[1].e)) for g, w_ in zip(got, want))
+                        per.append(z3.And(z3.And(s1.pc) if s1.pc else z3.BoolVal(True), z3.BoolVal(not same)))
+                    conds.append(z3.Or(per) if per else z3.BoolVal(False))
+                elif len(items) % 2 != 0:
                     conds.append(z3.BoolVal(True))
                 else:
                     conds.append(z3.IntVal(len(items) // 2) != n_k)
@@ -535,7 +618,7 @@ def native_findings(limit_len=5):
     findings = []
     n = 0
     try:
-        for k in range(0, limit_len + 1):
+        for k, variant in [(k_, v_) for k_ in range(0, limit_len + 1) for v_ in (0, 1)]:
             for script in itertools.product('LRB', repeat=k):
                 if not (set(script) & set('LB')) or not (set(script) & set('RB')):
                     continue      # an empty text has no final newline: diff::lines then reports a phantom line (outside the native oracle)
@@ -543,6 +626,8 @@ def native_findings(limit_len=5):
                 for i, ch in enumerate(script):
                     if ch == 'L':
                         o_lines.append('old%d' % i)
+                    elif ch == 'R' and variant == 1:
+                        f_lines.append('' if i % 2 == 0 else 'n%d' % i)      # empty added lines next to non-empty ones
                     elif ch == 'R':
                         f_lines.append(['a < b', 'new<%d>' % i, '', 'x & y', 'say "hi"', "it's", 'p -> q'][(i + k) % 7])
                     else:
@@ -599,12 +684,27 @@ def native_findings(limit_len=5):
                         findings.append('json block %r does not match the texts %r -> %r' % (b, o_lines, f_lines))
                     if b['expected'] and b['expected_end_line'] != b['expected_begin_line'] + b['expected'].count('\n') - 1:
                         findings.append('json expected_end_line wrong: %r' % (b,))
+                # independent of the blocks' own line counts: applying the blocks to the original text rebuilds the formatted text
+                rebuilt = list(o_lines)
+                shift = 0
+                for b in blocks:
+                    rem = b['original'].count('\n')
+                    add = b['expected'].split('\n')[:-1]
+                    at = b['original_begin_line'] - 1 + shift
+                    rebuilt[at:at + rem] = add
+                    shift += len(add) - rem
+                if rebuilt != f_lines:
+                    findings.append('json blocks applied to %r give %r, the formatted text is %r' % (o_lines, rebuilt, f_lines))
                 xml = rp.call({'op': 'emit_pair', 'mode': 'checkstyle', 'original': orig, 'formatted': fmt})['out']
                 try:
                     import xml.etree.ElementTree as ET
                     ET.fromstring(xml)
                 except Exception as e:
                     findings.append('checkstyle document is not well-formed XML (%s) for formatted lines %r' % (e, f_lines))
+                n_added = sum(1 for (_, _, lines_) in rp.call({'op': 'make_diff', 'original': orig, 'formatted': fmt, 'context': 0}).get('hunks', []) for (kind_, _) in lines_ if kind_ == 1)
+                n_err = len(re.findall(r'<error line="', xml))
+                if n_err != n_added:
+                    findings.append('checkstyle reports %d errors for %d added lines (%r -> %r)' % (n_err, n_added, o_lines, f_lines))
                 for m in re.finditer(r'<error line="(\d+)" severity="warning" message="Should be `([^"]*)`" />', xml):
                     li = int(m.group(1))
                     msg = m.group(2).replace('&lt;', '<').replace('&gt;', '>').replace('&quot;', '"').replace('&apos;', "'").replace('&amp;', '&')
